@@ -911,16 +911,7 @@ func ruleErrorRendered(c *Ctx) {
 					if f["failed:process"] {
 						nFail++
 						_, resNil := info.Uses[identOf(rs.Results[0])].(*types.Nil)
-						good := false
-						if call, isCall := ast.Unparen(rs.Results[1]).(*ast.CallExpr); isCall && resNil && len(call.Args) == 2 {
-							if fn, isFn := calleeOf(info, call).(*types.Func); isFn && fn.Pkg() != nil && fn.Pkg().Path() == "google.golang.org/grpc/status" && fn.Name() == "Error" {
-								if codeOfErr(call.Args[0]) {
-									if mc, isM := ast.Unparen(call.Args[1]).(*ast.CallExpr); isM && len(mc.Args) == 0 && isErrSel(mc.Fun, "Error") {
-										good = true
-									}
-								}
-							}
-						}
+						good := resNil && mappedStatus(pk, rs.Results[1], errObj, 0)
 						if !good {
 							ok, where, why = false, rs.Pos(), "a kernel error is answered with something other than (nil, status.Error(code(err.Code), err.Error()))"
 						}
@@ -1182,26 +1173,51 @@ func replyWrapper(pk *packages.Package, call *ast.CallExpr) (isWrapper bool, err
 		return false, -1
 	}
 	fd := funcDeclOf(pk, fn)
-	if fd == nil || fd.Body == nil || len(fd.Body.List) != 1 {
+	if fd == nil || fd.Body == nil || len(fd.Body.List) == 0 {
 		return false, -1
 	}
-	es, ok := fd.Body.List[0].(*ast.ExprStmt)
-	if !ok {
+	// the helper writes exactly one reply on each of its exits (a one-statement body, or a few
+	// statements preparing the operands of the reply)
+	isReply := func(x ast.Node) bool {
+		call, ok := x.(*ast.CallExpr)
+		if !ok {
+			return false
+		}
+		ifn, ok := calleeOf(info, call).(*types.Func)
+		if !ok || !isFuncOf(ifn, "github.com/gin-gonic/gin", "Context") {
+			return false
+		}
+		switch ifn.Name() {
+		case "JSON", "String", "Status", "AbortWithStatus", "AbortWithStatusJSON", "Data", "IndentedJSON", "PureJSON":
+			return true
+		}
+		return false
+	}
+	var inner *ast.CallExpr
+	nReplies := 0
+	for _, cc := range callsIn(fd.Body) {
+		if isReply(cc) {
+			inner = cc
+			nReplies++
+		}
+	}
+	if nReplies == 0 {
 		return false, -1
 	}
-	inner, ok := es.X.(*ast.CallExpr)
-	if !ok {
-		return false, -1
+	for _, set := range countEvents(buildCFG(pk, fd.Body), func(x ast.Node) int {
+		if isReply(x) {
+			return 1
+		}
+		return 0
+	}) {
+		if set != 2 {
+			return false, -1
+		}
 	}
-	ifn, ok := calleeOf(info, inner).(*types.Func)
-	if !ok || !isFuncOf(ifn, "github.com/gin-gonic/gin", "Context") {
-		return false, -1
+	if nReplies != 1 || len(fd.Body.List) != 1 {
+		return true, -1
 	}
-	switch ifn.Name() {
-	case "JSON", "String", "Status", "AbortWithStatus", "AbortWithStatusJSON", "Data", "IndentedJSON", "PureJSON":
-	default:
-		return false, -1
-	}
+	ifn := calleeOf(info, inner).(*types.Func)
 	sig := fn.Type().(*types.Signature)
 	if ifn.Name() == "JSON" && len(inner.Args) == 2 {
 		for i := 0; i < sig.Params().Len(); i++ {
@@ -1226,4 +1242,52 @@ func replyWrapper(pk *packages.Package, call *ast.CallExpr) (isWrapper bool, err
 		}
 	}
 	return true, errParam
+}
+
+// mappedStatus: e is status.Error(<x>.code(obj.Code), obj.Error()), written out or produced by a
+// helper of the package that returns exactly that for the parameter obj is passed as.
+func mappedStatus(pk *packages.Package, e ast.Expr, obj types.Object, depth int) bool {
+	info := pk.TypesInfo
+	call, ok := ast.Unparen(e).(*ast.CallExpr)
+	if !ok || obj == nil {
+		return false
+	}
+	fn, ok := calleeOf(info, call).(*types.Func)
+	if !ok || fn.Pkg() == nil {
+		return false
+	}
+	isSel := func(x ast.Expr, field string) bool {
+		se, ok := ast.Unparen(x).(*ast.SelectorExpr)
+		return ok && se.Sel.Name == field && isObj(info, se.X, obj)
+	}
+	if fn.Pkg().Path() == "google.golang.org/grpc/status" && fn.Name() == "Error" && len(call.Args) == 2 {
+		cc, ok := ast.Unparen(call.Args[0]).(*ast.CallExpr)
+		if !ok || len(cc.Args) != 1 {
+			return false
+		}
+		se, ok := ast.Unparen(cc.Fun).(*ast.SelectorExpr)
+		if !ok || se.Sel.Name != "code" || !isSel(cc.Args[0], "Code") {
+			return false
+		}
+		mc, ok := ast.Unparen(call.Args[1]).(*ast.CallExpr)
+		return ok && len(mc.Args) == 0 && isSel(mc.Fun, "Error")
+	}
+	if fn.Pkg() != pk.Types || depth >= 2 {
+		return false
+	}
+	fd := funcDeclOf(pk, fn)
+	if fd == nil || fd.Body == nil || len(fd.Body.List) != 1 {
+		return false
+	}
+	rs, ok := fd.Body.List[0].(*ast.ReturnStmt)
+	if !ok || len(rs.Results) != 1 {
+		return false
+	}
+	sig := fn.Type().(*types.Signature)
+	for i := 0; i < sig.Params().Len() && i < len(call.Args); i++ {
+		if isObj(info, call.Args[i], obj) && mappedStatus(pk, rs.Results[0], sig.Params().At(i), depth+1) {
+			return true
+		}
+	}
+	return false
 }
